@@ -303,7 +303,10 @@ LensR(p, pre, m, f, o, r) ==
          /\ o.post = pre                                                      \* moves nothing, stores nothing
          /\ both => SentMsgs(o.evs) = SentMsgs(exp.evs)
     [] p = "C10" -> res # "ok" /\ o.post = pre
-    [] p = "C11" -> Roles(o.post) = Roles(r.post)
+    [] p = "C11" -> /\ Roles(o.post) = Roles(r.post)
+                    \* ... and who the chain REPORTS as holders is who the lifecycle made holders
+                    /\ ("q" \in DOMAIN o /\ ~o.q.panic) =>
+                          <<o.q.owner, o.q.attMgr, o.q.pauser, o.q.tokCtl>> = <<r.post.owner, r.post.attMgr, r.post.pauser, r.post.tokCtl>>
     [] p = "C12" ->
          /\ BlockedBy(pre, m) => res # "ok"
          /\ <<o.post.pausedBM, o.post.pausedSR>> = <<r.post.pausedBM, r.post.pausedSR>>
